@@ -317,3 +317,10 @@ pub(crate) fn transform_text(text: &str) -> String {
         .collect::<Vec<_>>()
         .join(" ")
 }
+
+/// A pragma is emitted as the callee as it is written,
+/// so it must be an identifier or identifiers joined by dots (`h`, `React.createElement`).
+pub(crate) fn is_valid_pragma(name: &str) -> bool {
+    name.split('.')
+        .all(|part| Ident::verify_symbol(part).is_ok())
+}
